@@ -4,7 +4,8 @@ import Ruint.Model.Bits
 
 `overflowing_shl/shr` exactly as written: `(limbs, bits) = (rhs / 64, rhs % 64)`, the early return
 for `limbs >= LIMBS`, the per-limb loop with the carry recurrence, the final mask (shl only), and the
-lost-bit flag. Words are `Nat < W`; `x << k` on `u64` is `(x * 2^k) % W`, `x >> k` is `x / 2^k`,
+lost-bit flag (carry out of the last kept limb, OR limbs moved out whole, OR bits removed by the mask —
+the code after the `fix:` commit for DESIGN §9 C05). Words are `Nat < W`; `x << k` on `u64` is `(x * 2^k) % W`, `x >> k` is `x / 2^k`,
 `|` is `|||`.
 -/
 namespace Ruint.Shift
@@ -38,21 +39,26 @@ def isNonzero (a : List Nat) : Bool := a.any (· != 0)
 def overflowingShl (bits : Nat) (a : List Nat) (rhs : Nat) : List Nat × Bool :=
   let limbs := rhs / 64
   let b := rhs % 64
-  if limbs ≥ nlimbs bits then (Add.zero bits, isNonzero a)
+  if limbs ≥ nlimbs bits then (zero bits, isNonzero a)
   else
     let (r, carry) := shlLoop b (a.take (nlimbs bits - limbs)) 0
     let r := List.replicate limbs 0 ++ r
-    (maskTop bits r, carry != 0)
+    -- `for i in LIMBS - limbs..LIMBS { overflow |= self.limbs[i] != 0 }`, `r.limbs[LIMBS-1] > MASK`
+    let overflow := carry != 0 || isNonzero (a.drop (nlimbs bits - limbs))
+      || decide (r.getLast?.getD 0 > mask bits)
+    (maskTop bits r, overflow)
 
 /-- `overflowing_shr`. -/
 def overflowingShr (bits : Nat) (a : List Nat) (rhs : Nat) : List Nat × Bool :=
   let limbs := rhs / 64
   let b := rhs % 64
-  if limbs ≥ nlimbs bits then (Add.zero bits, isNonzero a)
+  if limbs ≥ nlimbs bits then (zero bits, isNonzero a)
   else
     let (r, carry) := shrLoop b (a.drop limbs).reverse 0
     let r := r.reverse ++ List.replicate limbs 0
-    (r, carry != 0)
+    -- `for i in 0..limbs { overflow |= self.limbs[i] != 0 }`
+    let overflow := carry != 0 || isNonzero (a.take limbs)
+    (r, overflow)
 
 def checkedShl (bits : Nat) (a : List Nat) (rhs : Nat) : Option (List Nat) :=
   match overflowingShl bits a rhs with
@@ -62,7 +68,7 @@ def checkedShl (bits : Nat) (a : List Nat) (rhs : Nat) : Option (List Nat) :=
 def saturatingShl (bits : Nat) (a : List Nat) (rhs : Nat) : List Nat :=
   match overflowingShl bits a rhs with
   | (v, false) => v
-  | _ => Add.max bits
+  | _ => maxU bits
 
 def wrappingShl (bits : Nat) (a : List Nat) (rhs : Nat) : List Nat := (overflowingShl bits a rhs).1
 
@@ -75,22 +81,22 @@ def wrappingShr (bits : Nat) (a : List Nat) (rhs : Nat) : List Nat := (overflowi
 
 /-- `arithmetic_shr`: `sign = bit(BITS-1); r = self >> rhs; if sign { r |= MAX << BITS.saturating_sub(rhs) }`. -/
 def arithmeticShr (bits : Nat) (a : List Nat) (rhs : Nat) : List Nat :=
-  if bits = 0 then Add.zero bits
+  if bits = 0 then zero bits
   else
     let sign := bit bits a (bits - 1)
     let r := wrappingShr bits a rhs
-    if sign then bitOr r (wrappingShl bits (Add.max bits) (bits - rhs)) else r
+    if sign then bitOr r (wrappingShl bits (maxU bits) (bits - rhs)) else r
 
 /-- `rotate_left`: `rhs % BITS`, `(self << rhs) | (self >> (BITS - rhs))`. -/
 def rotateLeft (bits : Nat) (a : List Nat) (rhs : Nat) : List Nat :=
-  if bits = 0 then Add.zero bits
+  if bits = 0 then zero bits
   else
     let rhs := rhs % bits
     bitOr (wrappingShl bits a rhs) (wrappingShr bits a (bits - rhs))
 
 /-- `rotate_right`: `rhs % BITS`, `self.rotate_left(BITS - rhs)`. -/
 def rotateRight (bits : Nat) (a : List Nat) (rhs : Nat) : List Nat :=
-  if bits = 0 then Add.zero bits
+  if bits = 0 then zero bits
   else
     let rhs := rhs % bits
     rotateLeft bits a (bits - rhs)
@@ -101,14 +107,17 @@ def rotateRight (bits : Nat) (a : List Nat) (rhs : Nat) : List Nat :=
 def shlInt (bits : Nat) (a : List Nat) (rhs : Nat) : List Nat := wrappingShl bits a rhs
 def shrInt (bits : Nat) (a : List Nat) (rhs : Nat) : List Nat := wrappingShr bits a rhs
 
-/-- `Shl<Uint> for Uint`: `if BITS == 0 { return self }; self.wrapping_shl(rhs.as_limbs()[0] as usize)`.
+/-- `Shl<Uint> for Uint`: `if BITS == 0 { return self }`; any non-zero limb above the first in the
+    amount (amount `≥ 2^64`) → `ZERO`; else `self.wrapping_shl(rhs.as_limbs()[0] as usize)`.
     (`&Uint`, `ShlAssign<Uint>`, `ShlAssign<&Uint>` forward to it.) -/
 def shlUint (bits : Nat) (a : List Nat) (rhs : List Nat) : List Nat :=
   if bits = 0 then a
+  else if isNonzero (rhs.drop 1) then zero bits
   else wrappingShl bits a (rhs.headD 0)
 
 def shrUint (bits : Nat) (a : List Nat) (rhs : List Nat) : List Nat :=
   if bits = 0 then a
+  else if isNonzero (rhs.drop 1) then zero bits
   else wrappingShr bits a (rhs.headD 0)
 
 end Ruint.Shift
